@@ -16,6 +16,7 @@ from circuits import Manager, BaseComponent, handler
 from circuits.web.http import HTTP
 from circuits.web.dispatchers import Dispatcher
 from circuits.web import Controller
+from circuits.web.wsgi import Gateway
 from circuits.net.events import read
 from circuits.web.constants import HTTP_STATUS_CODES
 
@@ -26,8 +27,15 @@ try:
 except Exception:       # a rename degrades the observable instead of raising
     pass
 
-CONTENT = ('str', 'bytes', 'list', 'yield', 'iter', 'file')
-ERRORS = ('none', 'forbidden', 'redirect')
+CONTENT = ('str', 'bytes', 'list', 'yield', 'iter', 'file', 'wsgi_list', 'wsgi_gen', 'wsgi_write')
+ERRORS = ('none', 'forbidden', 'redirect', 'raise', 'yield0')   # yield0: generator handler that never yields
+WSGI = ('wsgi_list', 'wsgi_gen', 'wsgi_write')
+ITER = ('iter', 'file', 'wsgi_gen')       # body is an iterator whose length prepare() does not compute
+REQ_COOKIES = ['a=1', 'b=2']              # Cookie: a=1; b=2 is echoed by Response.prepare as Set-Cookie lines
+APP_COOKIE = 'c=x; Path=/'
+
+# the correspondence runs in shards of this many cases (8 coqc in parallel): smaller shards, shorter wall time
+common.coq_mismatches.__defaults__ = (110,)
 STATUSES = [None, 200, 201, 204, 205, 304, 101, 102, 404, 500, 413, 299]
 NOBODY_PROP = lambda s: (100 <= s < 200) or s in (204, 304)
 
@@ -65,6 +73,7 @@ class FakeServer(BaseComponent):
     def __init__(self):
         super().__init__()
         self.http = HTTP(self, channel='web').register(self)
+        Gateway({'/w': wsgi_app}).register(self)
 
 
 class Probe(BaseComponent):
@@ -111,8 +120,13 @@ class Root(Controller):
         res.headers['X-Tag'] = h['tag']
         if h.get('ct'):
             res.headers['Content-Type'] = h['ct']
+        if h.get('cl') is not None:
+            res.headers['Content-Length'] = app_cl_value(h)
         if h.get('status') is not None:
             res.status = h['status']
+        if h.get('cookie'):
+            self.cookie['c'] = 'x'
+            self.cookie['c']['path'] = '/'
         k = h['kind']
         ps = [piece(p) for p in h['chunks']]
         if k in ('str', 'bytes', 'list') and h.get('stream'):
@@ -123,8 +137,10 @@ class Root(Controller):
             return b''.join(ps)
         if k == 'list':
             return list(ps)
-        if k == 'yield':
-            return _gen(ps)          # same as a handler whose body contains the yields
+        if k in ('yield', 'yield0'):
+            return _gen(ps)          # same as a handler whose body contains the yields (yield0: none at all)
+        if k == 'raise':
+            raise ValueError('handler failed')
         if k == 'iter':
             res.body = _gen(ps)
             res.stream = bool(h.get('stream'))
@@ -145,9 +161,38 @@ def _gen(ps):
         yield p
 
 
+def app_cl_value(h):
+    """Content-Length the application sets itself: 'true' = the real length, anything else verbatim"""
+    if h['cl'] == 'true':
+        return str(len(b''.join(piece_bytes(p) for p in h['chunks'])))
+    return h['cl']
+
+
+def wsgi_app(environ, start_response):
+    """WSGI application behind circuits.web.wsgi.Gateway, scripted by SPECS like the controller"""
+    h = SPECS[int(environ['QUERY_STRING'].split('=')[1])]
+    status = h['status'] if h.get('status') is not None else 200
+    headers = [('X-Tag', h['tag'])]
+    if h.get('ct'):
+        headers.append(('Content-Type', h['ct']))
+    if h.get('cl') is not None:
+        headers.append(('Content-Length', app_cl_value(h)))
+    write = start_response('%d %s' % (status, HTTP_STATUS_CODES.get(status, 'X')), headers)
+    ps = [piece(p) for p in h['chunks']]
+    if h['kind'] == 'wsgi_list':
+        return list(ps)
+    if h['kind'] == 'wsgi_write':
+        for p in ps:
+            write(p)
+        return []
+    return _gen(ps)
+
+
 def req_bytes(i, r):
-    s = '%s /?i=%d HTTP/%s\r\n' % (r['m'], i, r['v'])
+    s = '%s /%s?i=%d HTTP/%s\r\n' % (r['m'], 'w' if r['h']['kind'] in WSGI else '', i, r['v'])
     s += 'Host: x\r\n'
+    if r.get('cookie'):
+        s += 'Cookie: %s\r\n' % '; '.join(REQ_COOKIES)
     if r.get('conn'):
         s += 'Connection: %s\r\n' % r['conn']
     return (s + '\r\n').encode('ascii')
@@ -185,11 +230,34 @@ def client_decode(data, method):
 
 
 def rle(w):
-    """a write event as (length, checksum): same function as Model/HttpResponseObs.v Tw"""
+    """a write event as the harness states it to Coq: literally up to 64 bytes, else (-2, length, checksum);
+    same function as Model/HttpResponseObs.v Tw"""
+    if len(w) <= 64:
+        return w
     a = 7
     for x in w:
         a = (a * 257 + x + 1) % 4294967291
-    return [len(w), a]
+    return [-2, len(w), a]
+
+
+def bytes_coq(b):
+    """compact Coq term for a byte string: printable ASCII runs as string literals, the rest as numbers"""
+    out, i, n = [], 0, len(b)
+    ok = lambda x: 32 <= x < 127 and x != 34
+    while i < n:
+        j = i
+        while j < n and ok(b[j]):
+            j += 1
+        if j - i >= 4:
+            out.append('str "%s"' % b[i:j].decode('ascii'))
+            i = j
+            continue
+        j = i
+        while j < n and not (ok(b[j]) and all(ok(x) for x in b[j:j + 4]) and j + 4 <= n):
+            j += 1
+        out.append(nlist(b[i:j]))
+        i = j
+    return '(%s)' % ' ++ '.join(out) if out else '[]%N'
 
 
 def strip_date(b):
@@ -209,14 +277,16 @@ class C15(Prop):
     rule = ('every run: the full product {str,bytes,list,yield,iterator(stream on/off),file,404,403,redirect} x 7 (thorough: 12) statuses x '
             'HTTP/1.0|1.1 x Connection close|keep-alive|absent x GET|HEAD as single requests with small bodies, plus random '
             'sequences of 1-4 such requests on one connection with bodies up to 3 x BUFSIZE, empty pieces, non-ASCII text; '
-            'real HTTP component over a fake socket; output decoded by http.client. non-trivial = a body-bearing response, or a '
+            'raising and never-yielding handlers, WSGI Gateway applications, own Content-Length, cookies; real HTTP component over a fake socket; output decoded by http.client and, up to 2 KB, by the Coq client. non-trivial = a body-bearing response, or a '
             'sequence of >= 2 requests')
     trusted_base = ['hand-written model Model/HttpResponse.v (prepare decision + writer + independent parser) tied to /repo by this run',
                     'python oracle in harness/c15.py using http.client.HTTPResponse as the independent client',
                     'write/close events on channel web are taken as the bytes on the wire (socket layer is C11/C12)']
-    assumptions = ['application does not set Content-Length / Transfer-Encoding / Connection itself, sets no cookies; header values contain no CR/LF',
+    assumptions = ['application sets neither Transfer-Encoding nor Connection itself (passed through verbatim / added on top of the computed framing); '
+                   'a Content-Length it sets on an iterator body is the true length (on sized bodies it is overwritten: modelled and proved); '
+                   'header values and cookies contain no CR/LF and are ASCII',
                    'Response.stream is only set on iterator/file bodies or on empty bodies (stream on a non-empty str/list body makes next() raise: modelled as Crash, excluded)',
-                   'handlers that raise, and generator handlers that never yield, are not in the generated space',
+                   'error pages of errors.py: only length and framing are modelled, not the content',
                    'status 100 is not generated (http.client skips 100 Continue by design)']
 
     # ------------------------------------------------------------------ generation
@@ -227,39 +297,53 @@ class C15(Prop):
             h['status'] = rng.choice([None] * 6 + STATUSES)
             if rng.random() < 0.15:
                 h['ct'] = 'text/plain'
-            t = {'str': 's', 'bytes': 'b', 'file': 'b'}.get(kind)
+            t = {'str': 's', 'bytes': 'b', 'file': 'b', 'wsgi_list': 'b', 'wsgi_write': 's'}.get(kind)
             npieces = 1 if kind in ('str', 'bytes', 'file') else rng.randint(0 if kind != 'yield' else 1, 4)
             for _ in range(npieces):
                 tt = t or rng.choice('sb')
                 r = rng.random()
                 if r < 0.25:
                     p = [tt, '', 0]
-                elif r < 0.8 or small:
+                elif r < 0.8 or small or kind == 'wsgi_write':
                     pat = rng.choice(['a', 'bc', 'h\xe9', 'x\r\n', '0\r\n\r\n', 'hello world'])
                     p = [tt, pat, rng.randint(1, 3)]
                 else:
                     p = [tt, rng.choice(['x', 'y']), rng.choice([BUFSIZE - 1, BUFSIZE, BUFSIZE + 1, 3000, 2 * BUFSIZE + 5])]
                 h['chunks'].append(p)
+            r = rng.random()
+            if kind in ITER and r < 0.3:
+                h['cl'] = 'true'          # e.g. tools.serve_file, WSGI applications: own Content-Length on an iterator
+            elif kind not in ITER and kind != 'wsgi_write' and r < 0.15:
+                h['cl'] = rng.choice(['999', '0', 'true'])     # overwritten by prepare() for sized bodies
             if kind == 'iter':
                 h['stream'] = rng.random() < 0.6
             elif kind in ('str', 'bytes', 'list') and rng.random() < 0.12:
                 # the stream flag on a body that is not an iterator only works for an empty body
                 h['chunks'] = [] if kind == 'list' else [['s' if kind == 'str' else 'b', '', 0]]
                 h['stream'] = True
+        if kind not in WSGI and rng.random() < 0.25:
+            h['cookie'] = True
         return h
 
     def _req(self, rng, h):
-        return {'m': rng.choice(['GET', 'GET', 'HEAD']), 'v': rng.choice(['1.1', '1.1', '1.0']),
-                'conn': rng.choice([None, None, 'close', 'keep-alive', 'keep-alive']), 'h': h}
+        r = {'m': rng.choice(['GET', 'GET', 'HEAD']), 'v': rng.choice(['1.1', '1.1', '1.0']),
+             'conn': rng.choice([None, None, 'close', 'keep-alive', 'keep-alive']), 'h': h}
+        if rng.random() < 0.25:
+            r['cookie'] = True
+        return r
 
     def product(self, tier='thorough'):
         cases = []
         statuses = STATUSES if tier == 'thorough' else [None, 204, 205, 304, 101, 413, 299]
         kinds = [('str', False), ('bytes', False), ('list', False), ('yield', False), ('iter', False), ('iter', True),
-                 ('file', False), ('none', False), ('forbidden', False), ('redirect', False)]
+                 ('file', False), ('none', False), ('forbidden', False), ('redirect', False), ('raise', False), ('yield0', False)]
+        if tier == 'thorough':
+            kinds += [('wsgi_list', False), ('wsgi_gen', False), ('wsgi_write', False)]
         bodies = {'str': [['s', 'h\xe9llo', 1]], 'bytes': [['b', 'ab\xff', 1]], 'list': [['s', 'a', 1], ['b', '', 0], ['b', 'bc', 1]],
                   'yield': [['s', 'a', 1], ['s', 'b', 1]], 'iter': [['s', '', 0], ['s', 'abc', 1], ['b', '', 0], ['b', 'de', 1]],
-                  'file': [['b', 'xyz', 1]]}
+                  'file': [['b', 'xyz', 1]], 'wsgi_list': [['b', 'ab', 1], ['b', 'c', 1]],
+                  'wsgi_gen': [['b', '', 0], ['b', 'abc', 1], ['s', 'de', 1]], 'wsgi_write': [['s', 'hi', 1], ['s', '!', 1]]}
+        self._bodies = bodies
         for (kind, st), status, v, conn, m in itertools.product(kinds, statuses, ['1.1', '1.0'], [None, 'close', 'keep-alive'],
                                                                ['GET', 'HEAD']):
             if kind in ERRORS and status is not None:
@@ -277,15 +361,29 @@ class C15(Prop):
             elif kind in ('list', 'iter'):
                 chunks = rng.choice([[], [['s', '', 0], ['b', '', 0]]])
             else:
-                chunks = [['b' if kind != 'str' else 's', '', 0]]
+                chunks = [['b' if kind not in ('str', 'wsgi_write') else 's', '', 0]]
             for v, st in itertools.product(['1.1', '1.0'], [False, True]):
-                if st and kind in ('yield', 'file'):
+                if st and kind in ('yield', 'file') + WSGI:
                     continue
                 if st and kind == 'list':
                     chunks = []
                 h = {'kind': kind, 'tag': '1', 'status': None, 'chunks': chunks, 'stream': st}
                 cases.append({'reqs': [{'m': 'GET', 'v': v, 'conn': 'keep-alive', 'h': h},
                                        {'m': 'GET', 'v': v, 'conn': None, 'h': self._handler(rng, 'str', True)}]})
+        # the application's own Content-Length (true on iterator bodies, anything on sized ones), cookies, WSGI
+        for kind, v, conn, m in itertools.product(('iter', 'file', 'wsgi_gen', 'str', 'wsgi_list', 'wsgi_write'), ['1.1', '1.0'],
+                                                  [None, 'close', 'keep-alive'], ['GET', 'HEAD']):
+            h = {'kind': kind, 'tag': '3', 'status': None, 'chunks': self._bodies[kind], 'stream': kind == 'iter'}
+            if kind != 'wsgi_write':
+                h['cl'] = 'true' if kind in ITER else '999'
+            r = {'m': m, 'v': v, 'conn': conn, 'h': h}
+            if conn != 'close':
+                r['cookie'] = True
+                h['cookie'] = kind not in WSGI and v == '1.1'
+            cases.append({'reqs': [r, {'m': 'GET', 'v': '1.1', 'conn': None, 'h': self._handler(rng, 'str', True)}]})
+        for kind in ('none', 'raise', 'yield0', 'yield', 'list'):
+            h = {'kind': kind, 'tag': '4', 'status': None, 'chunks': self._bodies.get(kind, []), 'stream': False, 'cookie': True}
+            cases.append({'reqs': [{'m': 'GET', 'v': '1.1', 'conn': None, 'cookie': True, 'h': h}]})
         for _ in range(n):
             k = rng.choice([1, 2, 2, 3, 4])
             reqs = []
@@ -358,6 +456,9 @@ class C15(Prop):
         pre = [('X-Tag', h['tag'])]
         if h.get('ct'):
             pre.append(('Content-Type', h['ct']))
+        if h.get('cl') is not None:
+            pre.append(('Content-Length', app_cl_value(h)))
+        cookies = (REQ_COOKIES if r.get('cookie') else []) + ([APP_COOKIE] if h.get('cookie') else [])
         close0 = wants_close(r)
         sized, stream = True, bool(h.get('stream'))
         chunks = []
@@ -374,6 +475,23 @@ class C15(Prop):
         elif k == 'iter':
             sized, stream = False, bool(h.get('stream'))
             chunks = [piece_coq(p) for p in h['chunks']]
+        elif k == 'wsgi_list':
+            # Gateway joins the list; an empty result becomes the truthy empty string `empty` -> [b'']
+            b = b''.join(piece_bytes(p) for p in h['chunks'])
+            chunks = ['(%s)' % ' ++ '.join(piece_coq(p) for p in h['chunks'])] if b else ['[]%N']
+        elif k == 'wsgi_gen':
+            sized, stream = False, True
+            chunks = [piece_coq(p) for p in h['chunks']]
+        elif k == 'wsgi_write':
+            # what write() collected comes back as a StringIO -> file_generator, BUFSIZE characters per piece
+            txt = ''.join(piece(p) for p in h['chunks'])
+            if len(txt) > BUFSIZE:
+                return None
+            if txt:
+                sized, stream = False, True
+                chunks = [nlist(txt.encode('utf-8'))]
+            else:
+                chunks = ['[]%N']
         elif k == 'file':
             sized, stream = False, True
             b = b''.join(piece_bytes(p) for p in h['chunks'])
@@ -390,17 +508,18 @@ class C15(Prop):
             close0 = True
             if r['m'] == 'HEAD' or ob is None or len(ob['w']) < 1:
                 return None
-            status = {'none': 404, 'forbidden': 403, 'redirect': 303 if r['v'] == '1.1' else 302}[k]
+            status = {'none': 404, 'yield0': 404, 'raise': 500, 'forbidden': 403, 'redirect': 303 if r['v'] == '1.1' else 302}[k]
             if k == 'redirect':
                 pre += [('Content-Type', 'text/html'), ('Location', 'http://x/t')]
             # the error page is written by errors.py, not by the application: only its length is modelled
             n = sum(len(w) for w in ob['w'][1:])
             chunks = ['(repN %d%%N [120]%%N)' % n] if n else []
         reason = HTTP_STATUS_CODES.get(status, '')
-        return ('{| v11 := %s; head := %s; status := %d%%N; reason := %s; close0 := %s; pre := [%s]; sized := %s; '
-                'stream := %s; chunks := [%s] |}') % (
-            'true' if r['v'] == '1.1' else 'false', 'true' if r['m'] == 'HEAD' else 'false', status, nlist(reason),
-            'true' if close0 else 'false', '; '.join('(%s, %s)' % (nlist(a), nlist(b)) for a, b in pre),
+        return ('{| v11 := %s; head := %s; status := %d%%N; reason := %s; close0 := %s; pre := [%s]; cookies := [%s]; '
+                'sized := %s; stream := %s; chunks := [%s] |}') % (
+            'true' if r['v'] == '1.1' else 'false', 'true' if r['m'] == 'HEAD' else 'false', status, bytes_coq(reason.encode()),
+            'true' if close0 else 'false', '; '.join('(%s, %s)' % (bytes_coq(a.encode()), bytes_coq(b.encode())) for a, b in pre),
+            '; '.join(bytes_coq(x.encode()) for x in cookies),
             'true' if sized else 'false', 'true' if stream else 'false', '; '.join(chunks))
 
     def _modelled(self, c, obs):
@@ -415,30 +534,41 @@ class C15(Prop):
         return terms
 
     def model_term(self, c):
-        obs = getattr(self, '_last', {}).get(common.canon(c))
+        key = common.canon(c)
+        obs = getattr(self, '_last', {}).get(key)
         if obs is None:
             obs = self.safe_impl(c)
         terms = self._modelled(c, obs)
         if terms is None:
             return None
+        calls = self.__dict__.setdefault('_mt_calls', {})
+        calls[key] = calls.get(key, 0) + 1
+        if calls[key] > self.__dict__.get('_impl_calls', {}).get(key, 1):
+            # asked more often than the case was run: the framework is reporting a disagreement -> show the
+            # model's bytes unhashed
+            return 'obs_case_verbose [%s]' % '; '.join(terms)
         ps = []
-        if self._parse_sampled(c, obs):
-            for r, ob in zip(c['reqs'], obs):
-                ps.append('(%s, %s)' % ('true' if r['m'] == 'HEAD' else 'false', nlist(''.join(ob['w']).encode('latin1'))))
+        for r, ob in zip(c['reqs'], obs):
+            data = self._parse_input(ob)
+            if data is not None:
+                ps.append('(%s, %s)' % ('true' if r['m'] == 'HEAD' else 'false', bytes_coq(data)))
         return 'obs_case [%s] [%s]' % ('; '.join(terms), '; '.join(ps))
 
-    def _parse_sampled(self, c, obs):
-        """cases on which the Coq client is also run on the real bytes (small outputs, every eighth case)"""
-        if isinstance(obs, dict) or any(sum(len(w) for w in ob['w']) > 700 for ob in obs):
-            return False
-        import zlib
-        return zlib.crc32(common.canon(c).encode()) % 8 == 0
+    PARSE_LIMIT = 2048
+
+    def _parse_input(self, ob):
+        """the real bytes of one response, if small enough to be handed to the Coq client literally"""
+        data = ''.join(ob['w']).encode('latin1')
+        return data if 0 < len(data) <= self.PARSE_LIMIT else None
 
     def safe_impl(self, c):
         obs = Prop.safe_impl(self, c)
         if not hasattr(self, '_last'):
             self._last = {}
-        self._last[common.canon(c)] = obs
+        key = common.canon(c)
+        self._last[key] = obs
+        n = self.__dict__.setdefault('_impl_calls', {})
+        n[key] = n.get(key, 0) + 1
         return obs
 
     def obs_for_model(self, c, obs):
@@ -453,12 +583,12 @@ class C15(Prop):
                 ws[1:] = [b'x' * len(w) for w in ws[1:]]
             out.append([[rle(w) for w in ws], bool(ob['closed'])])
         ps = []
-        if self._parse_sampled(c, obs):
-            for r, ob in zip(c['reqs'], obs):
-                data = ''.join(ob['w']).encode('latin1')
+        for r, ob in zip(c['reqs'], obs):
+            data = self._parse_input(ob)
+            if data is not None:
                 try:
                     status, _h, body, will_close, consumed = client_decode(data, r['m'])
-                    ps.append([status, body, will_close, len(data) - consumed])
+                    ps.append([status, rle(body), will_close, len(data) - consumed])
                 except Exception:
                     ps.append([])
         return [out, ps]
@@ -505,7 +635,7 @@ class C15(Prop):
             elif body != exp:
                 return 'body (%d bytes) differs from what the application produced (%d bytes)' % (len(body), len(exp))
         else:
-            exp_status = {'none': (404,), 'forbidden': (403,), 'redirect': (302, 303)}[k]
+            exp_status = {'none': (404,), 'yield0': (404,), 'raise': (500,), 'forbidden': (403,), 'redirect': (302, 303)}[k]
             if status not in exp_status:
                 return 'status %d, expected %r' % (status, exp_status)
             if r['m'] == 'HEAD' and (body != b'' or consumed != len(data)):
@@ -514,8 +644,15 @@ class C15(Prop):
             return 'chunked transfer encoding sent to an HTTP/1.0 client'
         if ('X-Tag', h['tag']) not in [(a.title(), b) for a, b in headers]:
             return 'application header X-Tag: %s not recovered' % h['tag']
+        set_cookies = [b for a, b in headers if a.lower() == 'set-cookie']
+        want = (REQ_COOKIES if r.get('cookie') else []) + ([APP_COOKIE] if h.get('cookie') else [])
+        if set_cookies != want:
+            return 'Set-Cookie lines %r, expected %r' % (set_cookies, want)
         if consumed != len(data):
             return '%d stray bytes after the end of the response' % (len(data) - consumed)
+        if ob['after_close']:
+            return '%d more bytes written for this request after the connection was closed (a second response)' % sum(
+                len(w) for w in ob['after_close'])
         if will_close and not ob['closed']:
             return 'response announces/needs close (not self-delimiting or Connection: close) but the connection is left open'
         if ob['closed'] and not will_close:
